@@ -923,3 +923,37 @@ impl UtxoSet {
 //@|         r.value == stable_utxo_spec(full_utxo_set, outpoint).unwrap().0.value,
 //@|         r.height == stable_utxo_spec(full_utxo_set, outpoint).unwrap().1,
 //@end
+
+// ---- C01: "outputs that pay any other script never appear, including scripts whose address text merely starts with the queried
+// ---- address": the closure of UtxoSet::get_address_outpoints that filters the key range of the stable index (utxo_set.rs:227) ------
+// [trusted:stand-in] an entry of the stable address index (ic-stable-structures lazy entry) and the key decoder AddressUtxo::from_bytes
+// (its round trip / order are the Kani harnesses c01_key_*): an uninterpreted function of the key bytes
+struct KeyBlob { bytes: Vec<u8> }
+impl KeyBlob {
+    fn as_slice(&self) -> (r: &[u8]) ensures r@ == self.bytes@ { self.bytes.as_slice() }
+}
+struct IndexEntry { key: KeyBlob }
+impl IndexEntry {
+    fn key(&self) -> (r: &KeyBlob) ensures *r == self.key { &self.key }
+}
+struct AddressUtxo { address: Address, height: Height, outpoint: OutPoint }
+uninterp spec fn key_decode_spec(bytes: Seq<u8>) -> AddressUtxo;
+impl AddressUtxo {
+    #[verifier::external_body]
+    fn from_bytes(bytes: &[u8]) -> (r: AddressUtxo) ensures r == key_decode_spec(bytes@) { unimplemented!() }
+}
+// [trusted:assumed-spec] bool::then_some
+pub assume_specification<T>[bool::then_some](b: bool, t: T) -> (r: Option<T>)
+    ensures r == (if b { Some(t) } else { None::<T> }),
+;
+//@slice file=canister/src/utxo_set.rs in="impl UtxoSet" item="fn get_address_outpoints" block_after=".filter_map(move |entry| {" props=C01,C05
+//@ rewrite R12 "std::borrow::Cow::Borrowed\((.*?)\)\);" => "\1);"
+//@ head
+//@| // R8 slice: the closure that filters the entries of the key range (added by fix F1)
+//@| fn get_address_outpoints_filter(entry: IndexEntry, queried_address: Address) -> (r: Option<OutPoint>)
+//@|     ensures
+//@|         // an entry of the range is served iff its key decodes to EXACTLY the queried address (a longer address with the same
+//@|         // prefix shares the key range but is dropped), and what is served is that key's outpoint
+//@|         r.is_some() <==> key_decode_spec(entry.key.bytes@).address == queried_address,
+//@|         r matches Some(o) ==> o == key_decode_spec(entry.key.bytes@).outpoint,
+//@end
